@@ -651,7 +651,7 @@ def case_rigid(fam, rep, n=None):
             solid, field, mesh, L, (E, nu, rho) = build(rng, fam, n=n)
             d = mesh.dim
             nrig = 3 if d == 2 else 6
-            k = nrig + 4
+            k = min(nrig + 4, int(sum(field.fieldsizes)) - 2)  # (one-cell bodies have few unknowns)
             scale = E / (rho * float(np.max(L)) ** 2)
             job = fem.FreeVibration([solid]).evaluate(k=k, solver=shifted_solver(-1e-3 * scale))
             lam = np.sort(job.eigenvalues)
@@ -819,6 +819,13 @@ def cases(tier, seed):
     for fam in ("hexahedron20", "hexahedron27", "quad9", "triangle6") + MORE_FAMILIES:
         for rep in range(1 if tier == "quick" else 3):
             out.append(("rigid:%s:%d" % (fam, rep), case_rigid(fam, rep, n=(3, 3, 3) if fam in ("hexahedron20", "hexahedron27") else None)))
+    # bodies of one and of two cells (round 10: a template whose default rule under-integrates the stiffness shows spurious zero-energy modes
+    # only on meshes of very few cells; "all meshes")
+    for fam in ("hexahedron", "hexahedron20", "hexahedron27", "quad", "quad8", "quad9"):
+        d3 = fam.startswith("hex")
+        for cells_, n_ in ((1, (2, 2, 2) if d3 else (2, 2)), (2, (3, 2, 2) if d3 else (3, 2))):
+            for rep in range(1 if tier == "quick" else 2):
+                out.append(("rigid:%s:%d-cell:%d" % (fam, cells_, rep), case_rigid(fam, 20 + rep, n=n_)))
     for rep in range(2 if tier == "quick" else 6):
         out.append(("sizes:%d" % rep, case_sizes(rep)))
     for fam in DETERMINATE:
